@@ -114,7 +114,7 @@ func encodeTar(hdrs []RawHdr, format string) ([]byte, error) {
 		if err := tw.WriteHeader(th); err != nil {
 			return nil, err
 		}
-		if th.Typeflag == tar.TypeReg || th.Typeflag == tar.TypeRegA || ((th.Typeflag == 'D' || th.Typeflag == 'V') && len(h.Content) > 0) {
+		if th.Typeflag == tar.TypeReg || th.Typeflag == tar.TypeRegA || th.Typeflag == tar.TypeCont || ((th.Typeflag == 'D' || th.Typeflag == 'V') && len(h.Content) > 0) {
 			if _, err := tw.Write(h.Content); err != nil {
 				return nil, err
 			}
@@ -261,7 +261,7 @@ func decodeReaderForModel(rd io.Reader) (string, string) {
 		}
 		ch := ""
 		bodyOk := "1"
-		if h.Typeflag == tar.TypeReg || h.Typeflag == tar.TypeRegA || h.Typeflag == tar.TypeGNUSparse {
+		if h.Typeflag == tar.TypeReg || h.Typeflag == tar.TypeRegA || h.Typeflag == tar.TypeGNUSparse || h.Typeflag == tar.TypeCont {
 			body, err := io.ReadAll(tr)
 			if err != nil {
 				bodyOk = "0"
@@ -480,6 +480,8 @@ func unpackEngine(c *Ctx) {
 		"unpack tar " + lossless + " gnu none " + RawHdr{Name: "MYLABEL", Typeflag: 'V'}.tok() + ";" + RawHdr{Name: "./", Typeflag: '5', Mode: 0755}.tok() + ";" + RawHdr{Name: "./f", Typeflag: '0', Mode: 0644, Content: []byte("x")}.tok(),
 		"unpack tar " + lossless + " gnu none " + RawHdr{Name: "./", Typeflag: 'D', Mode: 0755, Content: []byte("Yf\x00\x00")}.tok() + ";" + RawHdr{Name: "./f", Typeflag: '0', Mode: 0644, Content: []byte("x")}.tok() + ";" + RawHdr{Name: "./d/", Typeflag: 'D', Mode: 0750, Content: []byte("\x00")}.tok(),
 		"unpack tar " + lossless + " gnu none " + RawHdr{Name: "./", Typeflag: '5', Mode: 0755}.tok() + ";" + RawHdr{Name: "./sp", Typeflag: 'S', Mode: 0644}.tok(),
+		// a contiguous file ('7') is a regular file
+		"unpack tar " + lossless + " - none " + RawHdr{Name: "./", Typeflag: '5', Mode: 0755}.tok() + ";" + RawHdr{Name: "./cont", Typeflag: '7', Mode: 0644, Content: []byte("c")}.tok(),
 		// a record that is no entry may be called anything: an absolute volume label (GNU tar's global header is /tmp/GlobalHead.N)
 		"unpack tar " + lossless + " gnu none " + RawHdr{Name: "/MYLABEL", Typeflag: 'V'}.tok() + ";" + RawHdr{Name: "./", Typeflag: '5', Mode: 0755}.tok() + ";" + RawHdr{Name: "./f", Typeflag: '0', Mode: 0644, Content: []byte("x")}.tok(),
 	}
@@ -518,7 +520,7 @@ func unpackEngine(c *Ctx) {
 	}
 	// the magic-number names are well-formed archives: they must be accepted (C05), not merely agree with the model
 	for _, op := range corpus {
-		if strings.Contains(op, hx("BZh")) || strings.Contains(op, hx("\x1f\x8b\x08")) || strings.Contains(op, hx("\xfd7zXZ")) || strings.Contains(op, hx("MYLABEL")) || strings.Contains(op, fmt.Sprintf(",%d,", 'D')) {
+		if strings.Contains(op, hx("BZh")) || strings.Contains(op, hx("\x1f\x8b\x08")) || strings.Contains(op, hx("\xfd7zXZ")) || strings.Contains(op, hx("MYLABEL")) || strings.Contains(op, fmt.Sprintf(",%d,", 'D')) || strings.Contains(op, hx("./cont")) {
 			if parts := strings.SplitN(unpackExec(c, op), "\x00", 2); len(parts) == 2 && !strings.HasPrefix(parts[1], "ok ") {
 				c.PropFail("valid-archive-refused", "a well-formed uncompressed tar (a first entry name that begins like a compression magic number; GNU volume label / dumpdir entries) was not accepted: "+parts[1], op)
 			}
